@@ -102,7 +102,7 @@ fn write_package(dir: &Path, pkg: &str, cases: &[&BatchCase]) {
         let m = mod_name(&c.id);
         std::fs::write(src.join(format!("case_{m}.rs")), &c.emitted).unwrap();
         if let Some(d) = &c.driver {
-            let body = format!("#![allow(warnings)]\nuse crate::{m} as gen;\nuse crate::zvp;\n{d}\n");
+            let body = format!("#![allow(warnings)]\nuse crate::{m} as zg;\nuse crate::zvp;\n{d}\n");
             std::fs::write(src.join(format!("drv_{m}.rs")), body).unwrap();
         }
     }
